@@ -19,7 +19,7 @@
 (* Anchors: ethnum::serde::permissive as used by src/transaction/*.rs and  *)
 (* src/typeddata.rs; src/serialization.rs.                                  *)
 (***************************************************************************)
-EXTENDS Bytes, Prim
+EXTENDS Bytes, Prim, HdwIO
 
 Bad   == [c |-> "bad",  neg |-> FALSE, mag |-> <<>>]
 Huge(neg) == [c |-> "huge", neg |-> neg, mag |-> <<>>]
@@ -146,9 +146,13 @@ ClassInt(node, bits) ==
   ELSE IF ~d.neg /\ BnBitLen(d.mag) > bits - 1 THEN [c |-> "reject", neg |-> FALSE, v |-> <<>>, why |-> "int_range"]
   ELSE [c |-> IF d.c = "std" THEN "accept" ELSE "either", neg |-> d.neg, v |-> d.mag, why |-> ""]
 
-\* "0x" + an even number of hex digits
+\* "0x" + an even number of hex digits.  A "hexstr" node is the run-length
+\* form of such a string (lower-case digits): [rep |-> n, pat |-> "<hex>"].
 ClassBytes(node) ==
-  IF node.k # "str" THEN [c |-> "reject", v |-> <<>>]
+  IF node.k = "hexstr" THEN
+    LET pat == HexToBytes(node.v.pat)
+    IN  [c |-> "accept", v |-> [i \in 1..(node.v.rep * Len(pat)) |-> pat[1 + ((i - 1) % Len(pat))]]]
+  ELSE IF node.k # "str" THEN [c |-> "reject", v |-> <<>>]
   ELSE LET cs == StrToUtf8(node.v) IN
     IF Len(cs) < 2 \/ cs[1] # 48 \/ cs[2] # 120 THEN [c |-> "reject", v |-> <<>>]
     ELSE LET body == SubSeq(cs, 3, Len(cs)) IN
